@@ -204,8 +204,15 @@ def numeric_case(args) -> dict:
                         mut.append(m)
                 try:
                     f.write_example(values=values, split="train")
-                except Exception:  # pylint: disable=broad-except
+                except Exception as e:  # pylint: disable=broad-except
+                    # all nine presentations are accepted by every writer on
+                    # the unchanged tree: a rejection loses a presentation
                     out["rejected"] += 1
+                    out["bad"].append(
+                        ("valid-rejected", "writer",
+                         f"{fmt}/{comp or 'none'} layout {lay}: presentation "
+                         f"{how} of valid values was rejected: "
+                         f"{type(e).__name__}: {str(e)[:100]}"))
                     continue
                 for m in mut:
                     m[...] = 0  # the caller reuses its buffer
@@ -216,7 +223,13 @@ def numeric_case(args) -> dict:
         ds_ = Dataset(root)
         for iface, got in read_all(ds_, fmt, comp, "quick").items():
             if isinstance(got, str):
+                # every dtype of the layouts is supported by every reader of
+                # the format (measured on the unchanged tree: 0 failures)
                 out["unsupported"] += 1
+                out["bad"].append(
+                    ("reader-fails", iface,
+                     f"{fmt}/{comp or 'none'} layout {lay}: reader {iface} "
+                     f"fails on a dataset of supported dtypes: {got}"))
                 continue
             if len(got) != len(expected):
                 out["bad"].append(
@@ -628,9 +641,10 @@ def run(ctx):
         "dtype; TFRecord integers widened to int64) == bytes written")
     ctx.cov["exhaustive"] = True
     ctx.assumptions[:] = [
-        "a presentation the writer rejects is counted, not a violation "
-        "(C18); a reader that raises for a dtype it cannot represent is "
-        "counted as unsupported",
+        "the layouts use only dtypes every reader of the format supports "
+        "and presentations every writer accepts (both measured on the "
+        "unchanged tree), so a rejected valid presentation and a failing "
+        "reader are violations, not skipped cells",
         ">= 32-bit dtypes: alphabet of bit patterns, not all values",
     ]
 
